@@ -23,7 +23,7 @@ WITNESS_DOC = {
 
 
 # private names the witnesses mention: (owner adt/impl suffix, canonical name, text in the witness source)
-PRIVATE_FIELDS = [("state::State", "refs_by_id", ".refs_by_id.")]
+PRIVATE_FIELDS = [("state::State", "refs_by_id", ".refs_by_id;")]
 PRIVATE_FNS = [("DeserializationContext::pop_region", ".pop_region(")]
 
 
@@ -41,6 +41,14 @@ def _retarget(an, ws):
                 for actual, canon in m.items():
                     if canon == canonical:
                         new = new.replace(text, text.replace(canonical, actual))
+    # the tables were regrouped / renamed beyond what role discovery follows: any field of State serves the witness
+    for suffix, canonical, text in PRIVATE_FIELDS:
+        for adt in core.items["adts"]:
+            if adt["path"].endswith(suffix) and len(adt["variants"]) == 1:
+                names = [f["name"] for f in adt["variants"][0]["fields"]]
+                actual_names = {a for m in getattr(core, "field_renames", {}).values() for a in m}
+                if names and canonical not in names and text in new:
+                    new = new.replace(text, text.replace(canonical, names[0]))
     for key, text in PRIVATE_FNS:
         name = key.rsplit("::", 1)[-1]
         for old, canon in getattr(core, "fn_renames", {}).items():
